@@ -27,7 +27,7 @@ for d in sorted(glob.glob("/verif/seeded/C*-*")):
     rc = m.get("reconfirmed") or {}
     conf = "yes"
     if rc:
-        conf = "yes (re-confirmed at /repo %s)" % rc.get("head") if rc.get("confirmed") else "when kept; at /repo %s: %s" % (rc.get("head"), (rc.get("note") or "not re-confirmed").replace("|", "/"))
+        conf = ("yes (re-confirmed at /repo %s)%s" % (rc.get("head"), (" — " + rc["note"].replace("|", "/")) if rc.get("note") else "")) if rc.get("confirmed") else "when kept; at /repo %s: %s" % (rc.get("head"), (rc.get("note") or "not re-confirmed").replace("|", "/"))
     out.append("| %s | %s — needs: %s | %s | %s |" % (os.path.basename(d), summ, need, conf, "; ".join(caught)))
 text = "\n".join(out)
 p = "/verif/DESIGN.md"
